@@ -11,7 +11,7 @@ restore() { git -C /repo checkout -- . ; git -C /repo clean -fdq -e target >/dev
 trap restore EXIT INT TERM
 if ! git -C /repo apply "$PATCH"; then echo "patch does not apply"; exit 2; fi
 for c in "$@"; do
-    OUT=$(cd "$ROOT" && VERIF_REPLAY_DIR=/tmp/try-replays ./check "$c" "$TIER" 2>&1); RC=$?
+    OUT=$(cd "$ROOT" && VERIF_REPLAY_DIR=/tmp/try-replays VERIF_EVIDENCE_DIR=/tmp/try-evidence ./check "$c" "$TIER" 2>&1); RC=$?
     echo "== $c exit=$RC"
     echo "$OUT" | grep -E "VIOLATION|KNOWN-FINDING|HARNESS ERROR|^  C[0-9]+:|^C[0-9]+ " | head -12
 done
